@@ -807,7 +807,9 @@ class _Body:
                     return False
                 if self.safe and not delimited and not s.closed:
                     return False
-                if self.safe and delimited and lmode == "none" and not s.lead:
+                # "until nothing remains" loops stop at an element that starts with a chunk break
+                # (e.g. absent optionals followed by the element's own <break/>)
+                if self.safe and lmode == "none" and not s.lead:
                     return False
                 return self.may_ff(s.ff, s.ch)
             cands = self.struct_choices(ok)
@@ -1468,6 +1470,25 @@ _CATALOGUE = [
       <field name="level" type="char"/><break/>
       <array name="tr" type="Line" length="2" delimited="true"/>
       <field name="after" type="char"/>
+    </chunked>
+  </struct>
+</protocol>""")]),
+    ("optional chains restart at a break, also behind a switch whose case holds an optional", False, [("pub", """<protocol>
+  <struct name="Stale">
+    <chunked>
+      <field name="a" type="char" optional="true"/><break/>
+      <field name="k" type="char"/>
+      <switch field="k"><case value="1"><field name="z" type="char" optional="true"/></case></switch>
+      <field name="b" type="char" optional="true"/>
+    </chunked>
+  </struct>
+  <struct name="Stale2">
+    <chunked>
+      <field name="a" type="string" optional="true"/><field name="a2" type="char" optional="true"/><break/>
+      <field name="k" type="char"/>
+      <switch field="k"><case value="1"><array name="z" type="char" optional="true"/></case><case default="true"/></switch>
+      <field name="b" type="string" optional="true"/><break/>
+      <field name="c" type="short" optional="true"/>
     </chunked>
   </struct>
 </protocol>""")]),
